@@ -183,9 +183,13 @@ impl Property for C08 {
         let mut admitted = 0;
         let mut rejected = 0;
         let a_inner: Vec<[f64; 6]> = a.iter().map(|s| decouple(&c.layers, s)).collect();
-        let skip_completeness = sentinel && singularish && (entry == 1);
+        // With the CONSTRAINT_CENTERED marker "previous" means the constraint centres, which the solver without limits does not have:
+        // where the answer depends on previous beyond order and 2 pi representative - the recovered answer at a wrist singularity, and
+        // J6 (hence everything) of the continuing 5-DOF path - the two calls are not the same query.
+        let five_continuing = entry == 3 || (entry == 1 && r.dof == 5);
+        let skip_completeness = sentinel && (five_continuing || (singularish && entry == 1));
         if skip_completeness {
-            ctx.exclude("completeness skipped: CONSTRAINT_CENTERED at a wrist-singular pose");
+            ctx.exclude("set comparison skipped: CONSTRAINT_CENTERED where the answer depends on what 'previous' resolves to (wrist-singular pose / continuing 5-DOF path)");
         }
         // A 5-DOF call with CONSTRAINT_CENTERED normalises J6 near the constraint centre: compare modulo 2 pi.
         for s in &b {
